@@ -7,13 +7,17 @@ From CK Require Import Circ.
 From CK Require Import Multiply.
 From CK Require Import Algebra.
 From CK Require Import Hom.
+From CK Require Import Scalar.
+From CK Require Import Tensor.
+From CK Require Import Pexpr.
+From CK Require Import PShapes.
 Close Scope Qc_scope. Close Scope Q_scope. Close Scope Z_scope. Open Scope nat_scope.
 
 (* coefficient convolution evaluates to the product of the polynomials *)
 Theorem C14_polynomial_product :
   forall (R : Type) (rO rI : R) (radd rmul : R -> R -> R),
          semi_ring_theory rO rI radd rmul eq ->
-         forall (p q : vec R) (x : R),
+         forall (p q : Base.vec R) (x : R),
          horner R rO radd rmul (conv R rO radd rmul p q) x =
          rmul (horner R rO radd rmul p x) (horner R rO radd rmul q x).
 Proof. exact horner_conv. Qed.
@@ -23,11 +27,11 @@ Print Assumptions C14_polynomial_product.
 Theorem C14_polynomial_product_rows :
   forall (R : Type) (rO rI : R) (radd rmul : R -> R -> R),
          semi_ring_theory rO rI radd rmul eq ->
-         forall (P Q : list (vec R)) (x : R),
-         map (fun r : vec R => horner R rO radd rmul r x)
-           (flat_map (fun p : vec R => map (conv R rO radd rmul p) Q) P) =
-         kron R rmul (map (fun p : vec R => horner R rO radd rmul p x) P)
-           (map (fun q : vec R => horner R rO radd rmul q x) Q).
+         forall (P Q : list (Base.vec R)) (x : R),
+         map (fun r : Base.vec R => horner R rO radd rmul r x)
+           (flat_map (fun p : Base.vec R => map (conv R rO radd rmul p) Q) P) =
+         kron R rmul (map (fun p : Base.vec R => horner R rO radd rmul p x) P)
+           (map (fun q : Base.vec R => horner R rO radd rmul q x) Q).
 Proof. exact horner_conv_rows. Qed.
 Print Assumptions C14_polynomial_product_rows.
 
@@ -35,15 +39,15 @@ Print Assumptions C14_polynomial_product_rows.
 Theorem C14_outer_product_columns :
   forall (R : Type) (rO rI : R) (radd rmul : R -> R -> R),
          semi_ring_theory rO rI radd rmul eq ->
-         forall (A B : list (vec R)) (s : nat),
-         col R rO s (flat_map (fun a : vec R => map (fun b : vec R => had R rmul a b) B) A) =
+         forall (A B : list (Base.vec R)) (s : nat),
+         col R rO s (flat_map (fun a : Base.vec R => map (fun b : Base.vec R => had R rmul a b) B) A) =
          kron R rmul (col R rO s A) (col R rO s B).
 Proof. exact col_outer. Qed.
 Print Assumptions C14_outer_product_columns.
 
 (* reduce-sum over the state axis is the sum of the lookups over all states *)
 Theorem C14_reduce_sum_states :
-  forall (R : Type) (rO : R) (radd : R -> R -> R) (row : vec R),
+  forall (R : Type) (rO : R) (radd : R -> R -> R) (row : Base.vec R),
          vsum R rO radd (map (fun s : nat => nth s row rO) (seq 0 (length row))) = vsum R rO radd row.
 Proof. exact vsum_states. Qed.
 Print Assumptions C14_reduce_sum_states.
@@ -52,7 +56,7 @@ Print Assumptions C14_reduce_sum_states.
 Theorem C14_kronecker_mixed_product :
   forall (R : Type) (rO rI : R) (radd rmul : R -> R -> R),
          semi_ring_theory rO rI radd rmul eq ->
-         forall w1 w2 x1 x2 : vec R,
+         forall w1 w2 x1 x2 : Base.vec R,
          length w1 = length x1 ->
          length w2 = length x2 ->
          dot R rO radd rmul (kron R rmul w1 w2) (kron R rmul x1 x2) =
@@ -64,7 +68,38 @@ Print Assumptions C14_kronecker_mixed_product.
 Theorem C14_polynomial_differential :
   forall (R : Type) (rO rI : R) (radd rmul : R -> R -> R),
          semi_ring_theory rO rI radd rmul eq ->
-         forall (i : nat) (p : vec R),
-         nth i (pdiff1 R rI radd rmul p) rO = nmul R rO radd (S i) (nth (S i) p rO).
+         forall (i : nat) (p : Base.vec R),
+         nth i (pdiff1 R rI radd rmul p) rO = nmul R rO radd (Datatypes.S i) (nth (Datatypes.S i) p rO).
 Proof. exact nth_pdiff1. Qed.
 Print Assumptions C14_polynomial_differential.
+
+(* for every parameter expression (all node types of coq/Pexpr.v, any nesting): if the symbolic shape rule pshape (the model of each node's declared `shape`) gives s and evaluation is defined, the evaluated tensor is rectangular with exactly shape s *)
+Theorem C14_shape_inference :
+  forall (e : pexpr) (s : list nat) (t : tn), pshape e = Some s -> peval e = Some t -> tshape t = Some s.
+Proof. exact peval_shape. Qed.
+Print Assumptions C14_shape_inference.
+
+(* every unary node applied to a tensor of positive shape s yields a tensor of the shape its rule declares (reductions drop the axis, index selects len(indices) along the axis, softmax / entrywise keep s) *)
+Theorem C14_unary_shape :
+  forall (op : unop) (s s' : list nat) (t t' : tn),
+         pos s = true ->
+         tshape t = Some s -> unop_shape op s = Some s' -> eval_unop op t = Some t' -> tshape t' = Some s'.
+Proof. exact eval_unop_shape. Qed.
+Print Assumptions C14_unary_shape.
+
+(* idem for binary nodes (sum, Hadamard, Kronecker, outer product / sum along an axis, polynomial product, Gaussian product std) *)
+Theorem C14_binary_shape :
+  forall (op : binop) (sa sb s : list nat) (a b t : tn),
+         pos sa = true ->
+         pos sb = true ->
+         tshape a = Some sa ->
+         tshape b = Some sb -> binop_shape op sa sb = Some s -> eval_binop op a b = Some t -> tshape t = Some s.
+Proof. exact eval_binop_shape. Qed.
+Print Assumptions C14_binary_shape.
+
+(* on the algebraic fragment evaluation of a well-shaped expression is always defined and has the inferred shape *)
+Theorem C14_algebraic_total :
+  forall (e : pexpr) (s : list nat),
+         alg e = true -> pshape e = Some s -> exists t : tn, peval e = Some t /\ tshape t = Some s.
+Proof. exact alg_peval_defined. Qed.
+Print Assumptions C14_algebraic_total.
